@@ -1912,6 +1912,8 @@ class ForAll(QuantifiedConditional):
         """
         values_that_satisfy_condition = []
         values_that_fail_condition = []
+        # what a completed binding was judged as (the two passes of a disjunction can lead to the same completion)
+        judged = set()
         # Evaluate the condition under this particular universal value
         for condition_val in self.condition._evaluate__(sources, parent=self):
             condition_val_bindings = {
@@ -1919,11 +1921,56 @@ class ForAll(QuantifiedConditional):
                 for k, v in condition_val.bindings.items()
                 if k in self.condition_unique_variable_ids
             }
+            if len(condition_val_bindings) < len(self.condition_unique_variable_ids):
+                # A disjunction answers as soon as one side holds and leaves the variables of the other side unbound.
+                # Such a result is no verdict for all their values: each of them is judged on its own.
+                for completed in self._bind_remaining_variables_(
+                    condition_val_bindings, sources
+                ):
+                    key = tuple(sorted((k, v.id_) for k, v in completed.items()))
+                    if key in judged:
+                        continue
+                    judged.add(key)
+                    if self.evaluate_condition({**sources, **completed}):
+                        values_that_satisfy_condition.append(completed)
+                    else:
+                        values_that_fail_condition.append(completed)
+                continue
+            key = tuple(sorted((k, v.id_) for k, v in condition_val_bindings.items()))
+            if key in judged:
+                continue
+            judged.add(key)
             if condition_val.is_false:
                 values_that_fail_condition.append(condition_val_bindings)
             else:
                 values_that_satisfy_condition.append(condition_val_bindings)
         return values_that_satisfy_condition, values_that_fail_condition
+
+    def _bind_remaining_variables_(
+        self, bindings: Dict[int, HashedValue], sources: Dict[int, HashedValue]
+    ) -> Iterable[Dict[int, HashedValue]]:
+        """
+        :return: The given bindings of the other variables of the condition, completed by every value of those that are
+         not bound yet.
+        """
+        remaining = [
+            v.value
+            for v in self.condition._unique_variables_.difference(
+                self.left._unique_variables_
+            )
+            if v.id_ in self.condition_unique_variable_ids and v.id_ not in bindings
+        ]
+        if not remaining:
+            yield bindings
+            return
+        variable = remaining[0]
+        for value in variable._evaluate__({**sources, **bindings}, parent=self):
+            bound_now = {
+                k: v
+                for k, v in value.bindings.items()
+                if k in self.condition_unique_variable_ids
+            }
+            yield from self._bind_remaining_variables_(bound_now, sources)
 
     def evaluate_condition(self, sources: Dict[int, HashedValue]) -> bool:
         for condition_val in self.condition._evaluate__(sources, parent=self):
